@@ -93,6 +93,12 @@ type srcWatch struct {
 func (s *srcWatch) Stop() {
 	atomic.AddInt32(&s.stops, 1)
 	s.closeCh()
+	// tearing down a real streaming source takes a moment, and by then the relay has noticed that its source is
+	// gone: give it that moment, so that whatever it does on its way out overlaps with the caller's Stop
+	for i := 0; i < 3; i++ {
+		runtime.Gosched()
+	}
+	time.Sleep(100 * time.Microsecond)
 }
 func (s *srcWatch) closeCh() {
 	s.mu.Lock()
